@@ -441,3 +441,11 @@ Definition check_token_row_t (c : layout * list conv * list value * string * lis
 Definition check_token_line_t (c : layout * list value * string) : Z :=
   let '(lay, vals, act) := c in check_token_line lay vals act.
 Definition check_balanced (ls : list string) : Z := if balanced None ls then 0 else 1.
+
+(* a delimiter separated row (csv_): the line is the model's rendering and every parsed column is the written content *)
+Definition check_list_row (lay : layout) (cvs : list conv) (vals : list value) (actual : string) (os : list obs) : Z :=
+  let cs := contents lay vals in
+  if negb (String.eqb (render_c lay cs) actual) then 1
+  else if all_match cvs (map strip cs) os then 0 else 3.
+Definition check_list_row_t (c : layout * list conv * list value * string * list obs) : Z :=
+  let '(lay, cv, vals, act, os) := c in check_list_row lay cv vals act os.
